@@ -360,6 +360,19 @@ pub fn write_replay(ctx: &Ctx, f: &Failure) -> PathBuf {
     path
 }
 
+/// Saved regression cases of a property: `$VERIF_REGRESS/<ID>/*.json` (default `/verif/regress`),
+/// each either a replay file (`{"case": ..}`) or a bare case. They are re-evaluated at the start of
+/// every campaign, before generated cases (fixed defects live in tiny regions of the input space).
+pub fn regress_cases(id: &str) -> Vec<(String, Value)> {
+    let dir = std::env::var("VERIF_REGRESS").map(PathBuf::from).unwrap_or_else(|_| PathBuf::from("/verif/regress")).join(id);
+    let mut names: Vec<PathBuf> = match std::fs::read_dir(&dir) {
+        Ok(rd) => rd.filter_map(|e| e.ok().map(|e| e.path())).filter(|p| p.extension().map(|x| x == "json").unwrap_or(false)).collect(),
+        Err(_) => return vec![],
+    };
+    names.sort();
+    names.into_iter().map(|p| (p.file_name().unwrap().to_string_lossy().into_owned(), load_replay(&p))).collect()
+}
+
 pub fn load_replay(path: &std::path::Path) -> Value {
     let s = std::fs::read_to_string(path).unwrap_or_else(|e| {
         eprintln!("cannot read replay file {path:?}: {e}");
